@@ -114,6 +114,66 @@ def can_inline(fd: ast.AST) -> bool:
     return True
 
 
+
+def _structure_once(stmts: List[ast.stmt]) -> Optional[List[ast.stmt]]:
+    """`while True:` block that runs once (every path ends in `break`, `return` or `raise`) -> the same statements as nested
+    if/else without the breaks; None when a break sits where that cannot be done (inside try/with, or a path falls off the end)"""
+
+    def has_break(n: ast.AST) -> bool:
+        # a break that would belong to the once-block (not to a loop nested in n)
+        if isinstance(n, (ast.Break, ast.Continue)):
+            return True
+        if isinstance(n, (ast.For, ast.While, ast.AsyncFor)):
+            return any(has_break(c) for c in n.orelse)
+        if isinstance(n, (ast.FunctionDef, ast.AsyncFunctionDef, ast.Lambda, ast.ClassDef)):
+            return False
+        return any(has_break(c) for c in ast.iter_child_nodes(n))
+
+    def conv(ss):
+        """-> (stmts, terminated) or None"""
+        out: List[ast.stmt] = []
+        for i, st in enumerate(ss):
+            if isinstance(st, ast.Break):
+                return out, True
+            if isinstance(st, ast.Continue):
+                return None
+            if isinstance(st, (ast.Return, ast.Raise)):
+                out.append(st)
+                return out, True
+            if isinstance(st, ast.If):
+                b = conv(st.body)
+                o = conv(st.orelse)
+                if b is None or o is None:
+                    return None
+                (bs, bt), (os_, ot) = b, o
+                if bt and ot:
+                    out.append(ast.copy_location(ast.If(test=st.test, body=bs or [ast.Pass()], orelse=os_), st))
+                    return out, True
+                if not bt and not ot:
+                    out.append(ast.copy_location(ast.If(test=st.test, body=bs or [ast.Pass()], orelse=os_), st))
+                    continue
+                rest = conv(ss[i + 1:])
+                if rest is None:
+                    return None
+                rs, rt = rest
+                if bt:
+                    if bs:
+                        out.append(ast.copy_location(ast.If(test=st.test, body=bs, orelse=os_ + rs), st))
+                    elif os_ + rs:
+                        out.append(ast.copy_location(ast.If(test=ast.UnaryOp(op=ast.Not(), operand=st.test), body=os_ + rs, orelse=[]), st))
+                else:
+                    out.append(ast.copy_location(ast.If(test=st.test, body=(bs + rs) or [ast.Pass()], orelse=os_), st))
+                return out, rt
+            if has_break(st):
+                return None
+            out.append(st)
+        return out, False
+
+    r = conv(stmts)
+    if r is None or not r[1]:
+        return None
+    return r[0] or [ast.Pass()]
+
 class _Rename(ast.NodeTransformer):
     def __init__(self, mapping: Dict[str, ast.AST], rename: Dict[str, str]):
         self.mapping = mapping  # name -> expression to substitute (loads only)
@@ -410,6 +470,7 @@ class Normaliser:
         self._cur = fd
         # nested functions are transformed too (their own scope)
         fd.body = self._block(fd.body, fd, top=True)
+        self._local_dict_fields(fd)
         if cls is not None and fd.args.args:
             # a method taken from a class-level table and called as plain function: NAME(self, a, b) -> self.NAME(a, b)
             cdef = next((c for c in self.tree.body if isinstance(c, ast.ClassDef) and c.name == cls), None)
@@ -426,6 +487,36 @@ class Normaliser:
             if isinstance(n, ast.FunctionDef):
                 self._func(n, cls)
         return ast.dump(fd) != before
+
+    def _local_dict_fields(self, fd: ast.FunctionDef) -> None:
+        """`d = {'a': E1, 'b': E2}` bound once at the top level of a new-style body, never written through, read only as d['a'] / d['b']
+        with each key read at most once: the subscripts are replaced by the value expressions and the binding dropped."""
+        for st in list(fd.body):
+            if not (isinstance(st, ast.Assign) and len(st.targets) == 1 and isinstance(st.targets[0], ast.Name) and isinstance(st.value, ast.Dict)):
+                continue
+            name, d = st.targets[0].id, st.value
+            if not d.keys or not all(isinstance(k, ast.Constant) and isinstance(k.value, str) for k in d.keys):
+                continue
+            uses = [n for n in _walk_local(fd) if isinstance(n, ast.Name) and n.id == name]
+            subs = [n for n in _walk_local(fd) if isinstance(n, ast.Subscript) and isinstance(n.value, ast.Name) and n.value.id == name]
+            if len(uses) != len(subs) + 1:
+                continue  # used in another way (passed on, iterated, written)
+            if not all(isinstance(s_.ctx, ast.Load) and isinstance(s_.slice, ast.Constant) for s_ in subs):
+                continue
+            keys = [k.value for k in d.keys]
+            reads = [s_.slice.value for s_ in subs]
+            if any(r not in keys for r in reads) or any(reads.count(k) > 1 and not _simple(v) for k, v in zip(keys, d.values)):
+                continue
+            vals = dict(zip(keys, d.values))
+
+            class T(ast.NodeTransformer):
+                def visit_Subscript(self, n):
+                    if isinstance(n.value, ast.Name) and n.value.id == name and isinstance(n.slice, ast.Constant):
+                        return ast.copy_location(copy.deepcopy(vals[n.slice.value]), n)
+                    return self.generic_visit(n)
+            fd.body = [T().visit(x) for x in fd.body if x is not st]
+            ast.fix_missing_locations(fd)
+            self.notes.append("local record %s dissolved in %s" % (name, fd.name))
 
     # ------------------------------------------------------------------ statements
     def _block(self, stmts: List[ast.stmt], fd: ast.FunctionDef, top: bool = False) -> List[ast.stmt]:
@@ -986,6 +1077,14 @@ class Normaliser:
                 return False
             if not terminates(body):
                 body = body + [ast.Assign(targets=[ast.Name(id=res, ctx=ast.Store())], value=ast.Constant(value=None)), ast.Break()]
+            flat = _structure_once(body)
+            if flat is not None:
+                for s_ in flat + pre:
+                    if not hasattr(s_, "lineno"):
+                        ast.copy_location(s_, call)
+                    ast.fix_missing_locations(s_)
+                self.notes.append("inlined %s into %s (several exits, as if/else)" % (fdh.name, fd.name))
+                return pre + flat, ast.copy_location(ast.Name(id=res, ctx=ast.Load()), call)
             loop = ast.While(test=ast.Constant(value=True), body=body, orelse=[])
             for s_ in [loop] + pre:
                 ast.copy_location(s_, call)
